@@ -82,13 +82,26 @@ theorem edgeNeiOverlap_perm (A : AMat Int n) :
     apply AMat.ext_get; intro i j
     simp
 
-/-! ### gtom for `nr_steps ≤ 2` (no in-place expansion round) -/
+/-! ### gtom (every `nr_steps`): each expansion round reads the matrix at the start of the round -/
 
-theorem gtom_perm_of_le_two (A : AMat Int n) (s : Nat) (hs : s ≤ 2) : gtom (permA σ A) s = permA σ (gtom A s) := by
-  have h0 : s - 2 = 0 := by omega
+theorem gtomNew_perm (B : AMat Int n) (i c : Fin n) : gtomNew (permA σ B) i c = gtomNew B (σ i) (σ c) := by
+  simp only [gtomNew, permA_get, perm_bne]
+  congr 1
+  exact fany_congr_perm σ _ _ (fun _ => rfl)
+
+theorem gtomSweep_perm (B : AMat Int n) : gtomSweep (permA σ B) = permA σ (gtomSweep B) := by
+  apply AMat.ext_get; intro r c
+  simp [gtomSweep, gtomNew_perm]
+
+theorem gtomAux_perm (B : AMat Int n) (s : Nat) : gtomAux (permA σ B) s = permA σ (gtomAux B s) := by
+  induction s with
+  | zero => rfl
+  | succ s ih => simp only [gtomAux, ih, gtomSweep_perm]
+
+theorem gtom_perm (A : AMat Int n) (s : Nat) : gtom (permA σ A) s = permA σ (gtom A s) := by
   apply AMat.ext_get; intro i j
   by_cases hs0 : s = 0
   · simp [gtom, hs0, bin_perm]
-  · simp [gtom, hs0, h0, gtomAux, bin_perm, mmul_perm, colSum_perm]
+  · simp [gtom, hs0, bin_perm, gtomAux_perm, mmul_perm, colSum_perm]
 
 end Bct.Measures
